@@ -88,7 +88,25 @@ func substitute(p string, sub map[string]string) string {
 var exoticSegs = []string{
 	"\u00e9", "\u65e5\u672c", "a\u0301", "\u2025", "\uff0e\uff0e", "\u200b..", "..\u200b", " ", "...", "....", "..\\", "\\..", "..\\..",
 	"%2e%2e", "..%2f", "\xff", "\xc0\xae\xc0\xae", "\x00", "..\x00", "~", "-", "a\nb", "..\n", "\u202e..", "\u3002\u3002",
-	strings.Repeat("a", 255), strings.Repeat("\u00e9", 128), ". .", ".. ", " ..",
+	"base-x", "base2", "base", strings.Repeat("a", 255), strings.Repeat("\u00e9", 128), ". .", ".. ", " ..",
+}
+
+// siblingPaths: every path of the small space below each prefix sibling of the base, reached by climbing
+// out of the base in the ways a relative or absolute argument can.
+func siblingPaths() []string {
+	ps := newPathSpace(2)
+	var out []string
+	for _, sib := range prefixSiblings {
+		for _, climb := range []string{"../" + sib, "a/../../" + sib, "./../" + sib, "/../" + sib, "..//" + sib, "../" + sib + "/../" + sib} {
+			out = append(out, climb, climb+"/")
+			for i := 0; i < ps.Count(); i++ {
+				if t, ok := ps.At(i); ok && !strings.HasPrefix(t, "/") {
+					out = append(out, climb+"/"+t)
+				}
+			}
+		}
+	}
+	return out
 }
 
 func randomPath(r *mon.Rand) string {
